@@ -3,6 +3,12 @@ mod rng;
 mod util;
 mod corr;
 mod oracle;
+mod gen;
+mod cfg;
+mod dump;
+mod run;
+mod custom;
+mod tables;
 
 use rng::Rng;
 
@@ -20,6 +26,7 @@ fn main() {
             for (s, _) in corr::streams() { println!("stream {}", s); }
             for (s, _) in oracle::oracles() { println!("oracle {}", s); }
         }
+        "tables" => { tables::write(&args[2]); }
         "corr" => {
             if args.len() < 6 { usage(); }
             let n: usize = args[3].parse().unwrap();
